@@ -1,6 +1,7 @@
 """C07  The executor finishes each task exactly once  (DESIGN 5 / C07)"""
 
 import ast
+import copy
 
 from ..model import (walk, dotted, call_name, kwarg, unparse, short, UNKNOWN,
                      root_name, AnalysisError, calls_in, stores_in_target)
@@ -1674,13 +1675,11 @@ def _untimed_waits(f):
             and not c.args and kwarg(c, 'timeout') is None]
 
 
-def r07_9(prog, rep, rid='R07.9'):
-    rep.rule(rid, 'cancel_task waits for the process without time limit after '
-             'the launcher\'s cancel: every launcher cancel_task(task, pid) '
-             'which signals the process ends, on every normal path, with the '
-             'signal that cannot be caught or ignored (SIGKILL)', minimum=2)
+def _launcher_cancel_sites(prog):
+    """(Popen.cancel_task, its cfg, statement map, the calls of the launcher's
+    cancel_task(task, pid) in it, the untimed waits that follow them, the
+    implementations of cancel_task(task, pid) in the launch methods)"""
     fc = prog.method(POPEN[0], POPEN[1], 'cancel_task')
-    rep.saw(fc)
     gc = cfg_of(fc)
     smap = I.stmt_node_map(gc)
     lcalls = [c for c in calls_in(fc.node)
@@ -1693,11 +1692,6 @@ def r07_9(prog, rep, rid='R07.9'):
     waits = [c for c in _untimed_waits(fc)
              if any(smap[id(c)].id in gc.reachable(smap[id(l)].id)
                     for l in lcalls)]
-    if not waits:
-        raise AnalysisError('UNRECOGNISED-IDIOM %s: no wait() without time '
-                            'limit follows the launcher\'s cancel_task: '
-                            'whether the cancel path can block is not decided'
-                            % fc.where)
     lm = prog.cls(*LMBASE)
     impls = []
     for cls in [lm] + list(prog.subclasses(lm)):
@@ -1708,6 +1702,21 @@ def r07_9(prog, rep, rid='R07.9'):
     if not impls:
         raise AnalysisError('UNRECOGNISED-IDIOM %s: no cancel_task(task, pid)'
                             % lm.where)
+    return fc, gc, smap, lcalls, waits, impls
+
+
+def r07_9(prog, rep, rid='R07.9'):
+    rep.rule(rid, 'cancel_task waits for the process without time limit after '
+             'the launcher\'s cancel: every launcher cancel_task(task, pid) '
+             'which signals the process ends, on every normal path, with the '
+             'signal that cannot be caught or ignored (SIGKILL)', minimum=2)
+    fc, gc, smap, lcalls, waits, impls = _launcher_cancel_sites(prog)
+    rep.saw(fc)
+    if not waits:
+        raise AnalysisError('UNRECOGNISED-IDIOM %s: no wait() without time '
+                            'limit follows the launcher\'s cancel_task: '
+                            'whether the cancel path can block is not decided'
+                            % fc.where)
     for f in impls:
         rep.saw(f)
         g = cfg_of(f)
@@ -1772,6 +1781,819 @@ def r07_9(prog, rep, rid='R07.9'):
 
 
 # ------------------------------------------------------------------------------
+# R07.10  a finishing hand-on really hands the task on
+#
+# `advance(things, state, publish, push)` announces the state when `publish`
+# is set and puts the things on the output queue of that state only when
+# `push` is set (default: False).  For FAILED / CANCELED the component base
+# class forces publish=True, push=False (the client takes over).  For every
+# other state a finishing region hands a task on with, the push is the
+# hand-on: announced but not pushed, the task is in nobody's hands - the
+# executor has dropped it from its registry, output staging never sees it.
+#
+_HAND_POS = {'things': 0, 'tasks': 0, 'state': 1, 'publish': 2, 'push': 3}
+
+
+def _param_default(callee, name):
+    a = callee.node.args
+    pos = list(a.posonlyargs) + list(a.args)
+    dfl = [None] * (len(pos) - len(a.defaults)) + list(a.defaults)
+    for p, d in zip(pos, dfl):
+        if p.arg == name:
+            return d
+    for p, d in zip(a.kwonlyargs, a.kw_defaults):
+        if p.arg == name:
+            return d
+    return None
+
+
+def _bound(prog, f, call, name, cls=None):
+    """the expression the parameter `name` of the hand-on `call` receives: by
+    keyword, by position (parameter list of the resolved callee) or from the
+    callee's default; None if nothing is bound to it"""
+    if any(isinstance(a, ast.Starred) for a in call.args) or \
+            any(k.arg is None for k in call.keywords):
+        raise AnalysisError('UNRECOGNISED-IDIOM %s: `%s` passes its arguments '
+                            'through * / **' % (f.where, short(call, 50)))
+    for k in call.keywords:
+        if k.arg == name:
+            return k.value
+    callee = prog.resolve_call(f, call, cls)
+    if callee is not None and name in callee.params:
+        a = callee.node.args
+        pos = [x.arg for x in list(a.posonlyargs) + list(a.args)]
+        if pos and pos[0] in ('self', 'cls'):
+            pos = pos[1:]
+        if name in pos and pos.index(name) < len(call.args):
+            return call.args[pos.index(name)]
+        return _param_default(callee, name)
+    if name in _HAND_POS and _HAND_POS[name] < len(call.args):
+        return call.args[_HAND_POS[name]]
+    if name == 'push' and call_name(call) == 'self.advance':
+        return ast.Constant(value=False)
+    return None
+
+
+def _flag_value(e, once):
+    e = _deref(e, once)
+    if isinstance(e, ast.Constant) and isinstance(e.value, bool):
+        return e.value
+    return UNKNOWN
+
+
+_FINISH_SITES = ((POPEN, 'cancel_task', True), (POPEN, '_check_running', True),
+                 (POPEN, 'work', False), (NOOP, '_collect', True),
+                 (NOOP, 'work', False))
+
+
+def r07_10(prog, rep, rid='R07.10'):
+    rep.rule(rid, 'every hand-on of a finishing region to a state other than '
+             'FAILED / CANCELED pushes the task (push=True reaches advance): '
+             'announcing the state without the push leaves the task with '
+             'nobody; the executors\' wrapper advance_tasks forwards its state '
+             'and its push request', minimum=6)
+    own = prog.const('states.py', 'AGENT_EXECUTING')
+    forced = (prog.const('states.py', 'FAILED'),
+              prog.const('states.py', 'CANCELED'))
+    for anchor, mname, needed in _FINISH_SITES:
+        K = prog.cls(*anchor)
+        f = prog.find_method(K, mname)
+        rep.saw(f)
+        once = _once_bound(f.node, f.params)
+        label = '%s.%s' % (K.name, mname)
+        seen = 0
+        for c in calls_in(f.node):
+            if not _is_hand(c):
+                continue
+            se = _bound(prog, f, c, 'state', K)
+            sv = prog.fold(f.module, _deref(se, once), f.cls) \
+                if se is not None else None
+            if not isinstance(sv, str):
+                raise AnalysisError('UNRECOGNISED-IDIOM %s: the state `%s` '
+                                    'hands on to is not a constant'
+                                    % (f.where, short(c, 50)))
+            if sv == own or sv in forced:
+                continue
+            seen += 1
+            pe = _bound(prog, f, c, 'push', K)
+            pv = _flag_value(pe, once) if pe is not None else UNKNOWN
+            if pv is UNKNOWN:
+                raise AnalysisError('UNRECOGNISED-IDIOM %s: the push flag of '
+                                    '`%s` is not a constant'
+                                    % (f.where, short(c, 50)))
+            rep.check(pv is True, rid, f, '%s: the hand-on to %s pushes the '
+                      'task(s)' % (label, sv),
+                      construct='%s:%s:not-pushed' % (label, sv),
+                      message='%s: `%s` announces %s but does not push (push=%s '
+                      'reaches advance%s): the task has left the executor - '
+                      'its uid is out of the registry, its resources are '
+                      'released - but it is never put on the queue of the '
+                      'next component, so it never reaches a final state'
+                      % (label, short(c, 70), sv, pv,
+                         ', the default' if kwarg(c, 'push') is None and
+                         len(c.args) < 4 else ''), loc=f.loc(c),
+                      history='%s: the task is announced as %s and then sits '
+                      'nowhere: output staging never sees it, the client '
+                      'waits forever' % (
+                          'cancel request, run-time limit or late cancel for '
+                          'a running task' if mname == 'cancel_task' else
+                          'a task process exits' if K.name == 'Popen' else
+                          'a NOOP task reaches its deadline', sv))
+        if needed and not seen:
+            raise AnalysisError('UNRECOGNISED-IDIOM %s: no hand-on to a '
+                                'non-final state in this finishing region'
+                                % f.where)
+    # the wrapper: what the executors ask for is what reaches advance
+    base = prog.cls(*EBASE)
+    f = prog.find_method(base, 'advance_tasks')
+    rep.saw(f)
+    once = _once_bound(f.node, f.params)
+    if 'state' not in f.params or 'push' not in f.params:
+        raise AnalysisError('UNRECOGNISED-IDIOM %s: no state / push parameter'
+                            % f.where)
+    rebound = {n.id for n in walk(f.node) if isinstance(n, ast.Name) and
+               isinstance(n.ctx, (ast.Store, ast.Del))}
+    if rebound & {'state', 'push'}:
+        raise AnalysisError('UNRECOGNISED-IDIOM %s: state / push re-bound'
+                            % f.where)
+    hands = [c for c in calls_in(f.node) if _is_hand(c)]
+    if not hands:
+        raise AnalysisError('UNRECOGNISED-IDIOM %s: no hand-on' % f.where)
+    forwards = 0
+    for c in hands:
+        se = _bound(prog, f, c, 'state', base)
+        se = _deref(se, once) if se is not None else None
+        pe = _bound(prog, f, c, 'push', base)
+        pe = _deref(pe, once) if pe is not None else None
+        st_ok = isinstance(se, ast.Name) and se.id == 'state'
+        fw = isinstance(pe, ast.Name) and pe.id == 'push'
+        off = isinstance(pe, ast.Constant) and pe.value is False
+        forwards += 1 if fw else 0
+        rep.check(st_ok and (fw or off), rid, f, 'advance_tasks: `%s` forwards '
+                  'the requested state, and the push request or no push'
+                  % short(c, 40),
+                  construct='advance_tasks:%s' % (
+                      'state-not-forwarded' if not st_ok else
+                      'push-not-forwarded'),
+                  message='AgentExecutingComponent.advance_tasks: `%s` passes '
+                  '%s to advance: %s' % (
+                      short(c, 70),
+                      'state=%s' % (unparse(se) if se is not None else 'None')
+                      if not st_ok else
+                      'push=%s' % (unparse(pe) if pe is not None else 'None'),
+                      'the tasks of that bucket are not advanced to the state '
+                      'the executor asked for' if not st_ok else
+                      'the tasks of that bucket are pushed although the '
+                      'executor did not ask for it (AGENT_EXECUTING is '
+                      'announced with push=False): they are handed on while '
+                      'they run, and again when they finish'),
+                  loc=f.loc(c),
+                  history='a task of that origin is started / finishes in the '
+                  'NOOP or Popen executor')
+    rep.check(forwards > 0, rid, f, 'advance_tasks: the push request reaches '
+              'advance for at least one bucket',
+              construct='advance_tasks:push-dropped',
+              message='AgentExecutingComponent.advance_tasks: no hand-on '
+              'forwards the `push` parameter: a finishing hand-on through the '
+              'wrapper (NOOP._collect) announces the tasks but never pushes '
+              'them to output staging', loc=f.loc(),
+              history='a NOOP task reaches its deadline: announced as '
+              'AGENT_STAGING_OUTPUT_PENDING, never pushed')
+
+
+# ------------------------------------------------------------------------------
+# R07.11  every round of the watcher polls the running tasks
+#
+# A spawned task is finished by the watcher thread only: `_watch` moves what
+# arrived on the watch queue into its list and `_check_running` polls every
+# process on that list.  Nothing wakes the watcher when a process exits, so a
+# round that skips the poll (no new task arrived, "nothing to do") is a round
+# in which an exited process is not collected - and when no further task
+# arrives, it never is.
+#
+def _collecting_nodes(prog, f, g, target, cls, depth=2):
+    """cfg nodes of f with a self call that resolves to `target`, or to a
+    method on whose every path to a normal return such a call lies"""
+    out = set()
+    for n in g.nodes:
+        if n.ast is None:
+            continue
+        for c in I.stmt_calls(n):
+            if _self_attr(c.func) is None:
+                continue
+            callee = prog.resolve_call(f, c, cls)
+            if callee is None or callee is f:
+                continue
+            if callee is target:
+                out.add(n.id)
+            elif depth:
+                cg = cfg_of(callee)
+                inner = _collecting_nodes(prog, callee, cg, target, cls,
+                                          depth - 1)
+                if inner and must_pass(cg, cg.entry.id, cg.exit.id, inner):
+                    out.add(n.id)
+    return out
+
+
+def _reads_self(prog, cls, e, once):
+    """e reads an attribute of the component (`self._term...`), not merely
+    the result of one of its own methods"""
+    for x in _expanded_once(e, once):
+        for n in walk(x, nested=True):
+            a = _self_attr(n)
+            if a and prog.find_method(cls, a) is None:
+                return True
+    return False
+
+
+def _expanded_once(e, once):
+    """e and the values of the once-bound locals it reads (transitively)"""
+    out, todo, seen = [], [e], set()
+    while todo:
+        x = todo.pop()
+        out.append(x)
+        for n in walk(x, nested=True):
+            if isinstance(n, ast.Name) and n.id in once and n.id not in seen:
+                seen.add(n.id)
+                todo.append(once[n.id][0])
+    return out
+
+
+def r07_11(prog, rep, rid='R07.11'):
+    rep.rule(rid, 'the watcher thread polls the running tasks in every round: '
+             'each iteration of its loop passes the call of _check_running, '
+             'with a list that survives the round, and the loop is left only '
+             'on a condition of the component (termination flag)', minimum=3)
+    popen = prog.cls(*POPEN)
+    f = prog.method(POPEN[0], POPEN[1], '_watch')
+    target = prog.method(POPEN[0], POPEN[1], '_check_running')
+    rep.saw(f)
+    g = cfg_of(f)
+    smap = I.stmt_node_map(g)
+    once = _once_bound(f.node, f.params)
+    coll = _collecting_nodes(prog, f, g, target, popen)
+    hist = ('a task process is still running in the round in which the '
+            'watcher takes the task from the watch queue, and no further task '
+            'is launched afterwards: the exit of the process is never seen, '
+            'the task stays in AGENT_EXECUTING and keeps its slots')
+    if not coll:
+        rep.bad(rid, f, '_watch:never-polls', 'Popen._watch never calls '
+                '_check_running: no spawned task is ever collected', f.loc(),
+                history=hist)
+        return
+    looped = [g.nodes[n] for n in coll if g.nodes[n].loops]
+    if not looped:
+        rep.bad(rid, f, '_watch:polls-once', 'Popen._watch calls '
+                '_check_running outside of its loop: the running tasks are '
+                'polled once, a process that exits later is never collected',
+                f.loc(), history=hist)
+        return
+    head = looped[0].loops[0]
+    body = g.loop_body[head]
+    start, stop, stop_edge = loop_slice(g, head)
+    # (a) must-pass per iteration (handler continuations included; what
+    # leaves the loop through an exception ends the thread and is not an
+    # iteration)
+    free = g.reachable(start, skip_nodes=coll)
+    skipped = head in free
+    witness = ''
+    if skipped:
+        # a test of the round one side of which avoids the poll while the
+        # other still reaches it
+        def avoids(e):
+            return e.dst == head or (e.dst not in coll and head in
+                                     g.reachable(e.dst, skip_nodes=coll))
+        for n in g.nodes:
+            if n.kind != 'test' or n.id not in free or n.id not in body:
+                continue
+            br = [e for e in g.succ[n.id] if e.label in ('T', 'F')]
+            av = [e for e in br if avoids(e)]
+            if len(br) == 2 and len(av) == 1:
+                witness = ' (when `%s` is %s)' % (
+                    short(n.ast, 40),
+                    'true' if av[0].label == 'T' else 'false')
+    rep.check(not skipped, rid, f, 'every iteration of the watcher loop passes '
+              '`%s`' % short(looped[0].ast, 40),
+              construct='_watch:round-without-poll',
+              message='Popen._watch: an iteration of the watcher loop can go '
+              'back to the loop head without calling _check_running%s: in '
+              'such a round no process is polled. Nothing but this loop ever '
+              'looks at the running processes, so a task whose process exits '
+              'after the last round that did poll is never collected - no '
+              'unschedule publication, no hand-on' % witness,
+              loc=f.loc(looped[0].ast), history=hist)
+    # (b) the loop is left on a condition of the component only
+    bad = None
+    n_exits = 0
+    for nid in sorted(body | {head}):
+        for e in g.succ[nid]:
+            if e.label == 'exc' or e.dst in body or e.dst == head:
+                continue
+            n_exits += 1
+            tests = [(g.nodes[t].ast, lab) for t, lab in
+                     guards(g, nid, start=start, within=body)]
+            if g.nodes[nid].kind == 'test':
+                tests.append((g.nodes[nid].ast, e.label))
+            if not any(_reads_self(prog, popen, t, once) for t, lab in tests):
+                bad = (g.nodes[nid], [
+                    short(t, 40) if lab == 'T' else 'not (%s)' % short(t, 40)
+                    for t, lab in tests])
+    rep.check(bad is None, rid, f, 'the watcher loop is left only where a '
+              'test on the component (termination flag) says so (%d exit(s))'
+              % n_exits, construct='_watch:loop-left',
+              message='Popen._watch leaves its loop %s: the watcher thread '
+              'ends while tasks are still running (and while the component '
+              'keeps launching tasks); none of them is ever collected'
+              % ('when `%s`, a condition on what this round happened to find'
+                 % bad[1][-1] if bad and bad[1] else
+                 'unconditionally after the first round'),
+              loc=f.loc(bad[0].ast) if bad and bad[0].ast is not None
+              else f.loc(), history=hist)
+    # (c) the list handed to the poll survives the round
+    reb = None
+    for n in looped:
+        for c in I.stmt_calls(n):
+            for a in list(c.args) + [k.value for k in c.keywords]:
+                if not isinstance(a, ast.Name):
+                    continue
+                for m in g.stmt_nodes():
+                    if m.id in body and m.kind == 'stmt' and \
+                            isinstance(m.ast, ast.Assign) and any(
+                                isinstance(t, ast.Name) and t.id == a.id
+                                for t in m.ast.targets) and not any(
+                                isinstance(x, ast.Name) and x.id == a.id
+                                for x in walk(m.ast.value)):
+                        reb = (a.id, m)
+    rep.check(reb is None, rid, f, 'the list of watched tasks is not '
+              're-created inside the watcher loop',
+              construct='_watch:list-rebound',
+              message='Popen._watch binds `%s` anew in every round (`%s`): '
+              'the tasks taken from the watch queue in earlier rounds are '
+              'forgotten; a task whose process outlives the round in which it '
+              'was picked up is never polled again'
+              % (reb[0] if reb else '', short(reb[1].ast, 50) if reb else ''),
+              loc=f.loc(reb[1].ast) if reb else f.loc(), history=hist)
+
+
+# ------------------------------------------------------------------------------
+# R07.12  advance_tasks hands each task on once per addressee
+#
+# advance_tasks sorts the bulk into one bucket per addressee (client, raptor
+# master, agent) and advances every bucket.  A task that is in a bucket twice,
+# or a bucket that is advanced twice, is a second hand-on of the same task:
+# two FAILED notifications, two result callbacks in the raptor master.  The
+# function is evaluated for ONE task of the bulk over the finite domain
+# (origin) x (tests on the task: free, but consistent) x (state constants it
+# compares with).
+#
+def _empty_list(e):
+    return (isinstance(e, ast.List) and not e.elts) or (
+        isinstance(e, ast.Call) and isinstance(e.func, ast.Name) and
+        e.func.id == 'list' and not e.args and not e.keywords)
+
+
+class _Rename(ast.NodeTransformer):
+    def __init__(self, names):
+        self.names = names
+
+    def visit_Name(self, n):
+        if n.id in self.names:
+            return ast.copy_location(ast.Name(id='_T_', ctx=n.ctx), n)
+        return n
+
+
+def _routing_model(prog, f, g):
+    """(name of the bucket table, its keys, {loop head id: loop variable} for
+    the loops over the bulk)"""
+    once = _once_bound(f.node, f.params)
+    params = [p for p in f.params if p != 'self']
+    if not params:
+        raise AnalysisError('UNRECOGNISED-IDIOM %s: no bulk parameter'
+                            % f.where)
+    bulk = params[0]
+    table = keys = None
+    for nm, (val, stmt) in sorted(once.items()):
+        if isinstance(val, ast.Dict) and val.keys and all(
+                isinstance(k, ast.Constant) and isinstance(k.value, str)
+                for k in val.keys) and all(_empty_list(v) for v in val.values):
+            if table is not None:
+                raise AnalysisError('UNRECOGNISED-IDIOM %s: two bucket tables'
+                                    % f.where)
+            table, keys = nm, [k.value for k in val.keys]
+    if table is None:
+        raise AnalysisError('UNRECOGNISED-IDIOM %s: no table of per-addressee '
+                            'buckets (literal dict of empty lists)' % f.where)
+
+    def is_bulk(e, d=3):
+        e = _deref(e, once)
+        if isinstance(e, ast.Name):
+            return e.id == bulk
+        if isinstance(e, ast.Call) and len(e.args) == 1 and not e.keywords \
+                and d:
+            return is_bulk(e.args[0], d - 1)
+        return False
+    loops = {}
+    for n in g.nodes:
+        if n.kind == 'while':
+            raise AnalysisError('UNRECOGNISED-IDIOM %s: while loop' % f.where)
+        if n.kind != 'for':
+            continue
+        if not (is_bulk(n.ast.iter) and isinstance(n.ast.target, ast.Name)):
+            raise AnalysisError('UNRECOGNISED-IDIOM %s: `for %s in %s` is not '
+                                'a loop over the bulk' % (
+                                    f.where, unparse(n.ast.target),
+                                    short(n.ast.iter, 30)))
+        loops[n.id] = n.ast.target.id
+    if not loops:
+        raise AnalysisError('UNRECOGNISED-IDIOM %s: no loop over the bulk'
+                            % f.where)
+    return once, bulk, table, keys, loops, is_bulk
+
+
+def r07_12(prog, rep, rid='R07.12'):
+    rep.rule(rid, 'advance_tasks, evaluated for one task of the bulk over '
+             'every origin and state: the task is put into each addressee\'s '
+             'bucket at most once, each bucket is handed on at most once, and '
+             'the bucket of the task\'s own origin is handed on', minimum=3)
+    base = prog.cls(*EBASE)
+    f = prog.find_method(base, 'advance_tasks')
+    rep.saw(f)
+    g = cfg_of(f)
+    once, bulk, table, keys, loops, is_bulk = _routing_model(prog, f, g)
+    idx = {k: i for i, k in enumerate(keys)}
+    ALL = len(keys)                      # hand-on of the whole bulk
+    ofield = []
+
+    def var_at(node):
+        for h in reversed(node.loops):
+            if h in loops:
+                return loops[h]
+        return None
+
+    def is_field(e, node):
+        """'origin' for `<loop var>['origin']`"""
+        e = _deref(e, once)
+        v = var_at(node)
+        if isinstance(e, ast.Subscript) and isinstance(e.value, ast.Name) \
+                and e.value.id == v and v is not None and \
+                isinstance(e.slice, ast.Constant) and \
+                isinstance(e.slice.value, str):
+            return e.slice.value
+        return None
+
+    def bkey(e, node):
+        """index of the bucket `e` denotes for the task under evaluation
+        ('O': the one of its origin); None if e is not a bucket"""
+        e = _deref(e, once)
+        if not (isinstance(e, ast.Subscript) and
+                isinstance(e.value, ast.Name) and e.value.id == table):
+            return None
+        k = _deref(e.slice, once)
+        if isinstance(k, ast.Constant) and k.value in idx:
+            return idx[k.value]
+        fld = is_field(k, node)
+        if fld is not None:
+            if fld not in ofield:
+                ofield.append(fld)
+            if len(ofield) > 1:
+                raise AnalysisError('UNRECOGNISED-IDIOM %s: buckets selected '
+                                    'by two task fields %s' % (f.where, ofield))
+            return 'O'
+        raise AnalysisError('UNRECOGNISED-IDIOM %s: bucket key `%s`'
+                            % (f.where, short(e.slice, 30)))
+
+    # the state constants the function compares its state parameter with
+    sconsts = []
+    for n in g.nodes:
+        t = _deref(n.ast, once) if n.kind == 'test' else None
+        if isinstance(t, ast.Compare) and len(t.ops) == 1:
+            l = _deref(t.left, once)
+            if isinstance(l, ast.Name) and l.id == 'state':
+                v = prog.fold(f.module, t.comparators[0], f.cls)
+                for x in (v if isinstance(v, (list, tuple)) else [v]):
+                    if isinstance(x, str) and x not in sconsts:
+                        sconsts.append(x)
+
+    def run_one(origin, sval):
+        o = idx[origin]
+
+        def K(k):
+            return o if k == 'O' else k
+
+        def decide(node):
+            """True / False / None (free) / ('memo', text)"""
+            e = _deref(node.ast, once)
+            v = var_at(node)
+            if isinstance(e, ast.Compare) and len(e.ops) == 1:
+                op, l, r = e.ops[0], _deref(e.left, once), e.comparators[0]
+                if isinstance(op, (ast.In, ast.NotIn)):
+                    b = bkey(r, node)
+                    if b is not None:
+                        if not (isinstance(l, ast.Name) and l.id == v
+                                and v is not None):
+                            raise AnalysisError(
+                                'UNRECOGNISED-IDIOM %s: membership of `%s` in '
+                                'a bucket' % (f.where, short(l, 30)))
+                        return ('in', K(b), isinstance(op, ast.In))
+                if isinstance(op, (ast.Eq, ast.NotEq, ast.In, ast.NotIn)):
+                    val = None
+                    fld = is_field(l, node)
+                    if fld is not None and ofield and fld == ofield[0]:
+                        val = origin
+                    elif isinstance(l, ast.Name) and l.id == 'state':
+                        val = sval
+                    if val is not None:
+                        c = prog.fold(f.module, r, f.cls)
+                        if isinstance(op, (ast.Eq, ast.NotEq)) and \
+                                isinstance(c, str):
+                            return (val == c) == isinstance(op, ast.Eq)
+                        if isinstance(op, (ast.In, ast.NotIn)) and \
+                                isinstance(c, (list, tuple)) and \
+                                all(isinstance(x, str) for x in c):
+                            return (val in c) == isinstance(op, ast.In)
+            b = bkey(e, node) if isinstance(e, ast.Subscript) or \
+                isinstance(e, ast.Name) else None
+            if b is not None:
+                return ('truth', K(b))
+            txt = unparse(_Rename(set(loops.values())).visit(
+                copy.deepcopy(e)))
+            return ('memo', txt)
+
+        def transfer(node, edge, st):
+            cnt, hands, seen, memo = st
+            if node.kind == 'for' and node.id in loops:
+                if edge.label == 'iter':
+                    if node.id in seen:
+                        return None
+                    return (cnt, hands, seen | {node.id}, memo)
+                if edge.label == 'done' and node.id not in seen:
+                    return None
+                return st
+            if edge.label == 'exc':
+                return st
+            if node.kind == 'test' and edge.label in ('T', 'F'):
+                d = decide(node)
+                want = edge.label == 'T'
+                if d is True or d is False:
+                    return st if d == want else None
+                if d[0] == 'in':
+                    present = cnt[d[1]] > 0
+                    return st if (present == d[2]) == want else None
+                if d[0] == 'truth':
+                    if cnt[d[1]] > 0 and not want:
+                        return None
+                    return st
+                if (d[1], not want) in memo:
+                    return None
+                return (cnt, hands, seen, memo | {(d[1], want)})
+            if node.kind != 'stmt':
+                return st
+            a = node.ast
+            v = var_at(node)
+            cnt, hands = list(cnt), list(hands)
+            if isinstance(a, (ast.Assign, ast.AugAssign, ast.Delete)):
+                tgts = a.targets if not isinstance(a, ast.AugAssign) \
+                    else [a.target]
+                for t in tgts:
+                    b = bkey(t, node) if isinstance(t, ast.Subscript) else None
+                    if b is None:
+                        continue
+                    if isinstance(a, ast.AugAssign) and \
+                            isinstance(a.op, ast.Add) and \
+                            isinstance(a.value, ast.List) and all(
+                                isinstance(x, ast.Name) for x in a.value.elts):
+                        for x in a.value.elts:
+                            if x.id == v and v is not None:
+                                cnt[K(b)] = min(2, cnt[K(b)] + 1)
+                    else:
+                        raise AnalysisError(
+                            'UNRECOGNISED-IDIOM %s: `%s` re-binds a bucket'
+                            % (f.where, short(a, 40)))
+            for c in calls_in(a):
+                if isinstance(c.func, ast.Attribute) and \
+                        c.func.attr in I.MUTATING:
+                    b = bkey(c.func.value, node)
+                    if b is not None:
+                        if c.func.attr == 'append' and len(c.args) == 1 and \
+                                isinstance(c.args[0], ast.Name) and \
+                                c.args[0].id == v and v is not None:
+                            cnt[K(b)] = min(2, cnt[K(b)] + 1)
+                        else:
+                            raise AnalysisError(
+                                'UNRECOGNISED-IDIOM %s: `%s` changes a bucket'
+                                % (f.where, short(c, 40)))
+                if _is_hand(c):
+                    th = I.handon_thing(c)
+                    b = bkey(th, node) if th is not None else None
+                    if b is not None:
+                        hands[K(b)] = min(2, hands[K(b)] + cnt[K(b)])
+                    elif th is not None and (is_bulk(th) or (
+                            v is not None and _thing_name(th) == v)):
+                        hands[ALL] = min(2, hands[ALL] + 1)
+                    else:
+                        raise AnalysisError(
+                            'UNRECOGNISED-IDIOM %s: `%s` hands on something '
+                            'that is neither a bucket nor the bulk'
+                            % (f.where, short(c, 40)))
+            return (tuple(cnt), tuple(hands), seen, memo)
+
+        init = ((0,) * len(keys), (0,) * (len(keys) + 1), frozenset(),
+                frozenset())
+        ex = Exploration(g, g.entry.id, init, transfer)
+        rep.stat('paths_enumerated', ex.states)
+        out = []
+        for t in ex.terminals:
+            if t.node != g.exit.id:
+                continue
+            cnt, hands, seen, memo = t.state
+            lits = [x for x, val in sorted(memo) if val]
+            for k, i in idx.items():
+                if cnt[i] > 1:
+                    out.append(('twice-in-bucket', k, lits))
+                elif hands[i] > 1:
+                    out.append(('bucket-handed-on-twice', k, lits))
+            if hands[o] + hands[ALL] == 0:
+                out.append(('own-bucket-not-handed-on', origin, lits))
+        return out
+
+    # a first pass fixes the field that selects the bucket (ofield)
+    for n in g.nodes:
+        if n.ast is None or n.kind in ('while', 'dispatch', 'handler', 'for',
+                                       'with'):
+            continue
+        for x in walk(n.ast):
+            if isinstance(x, ast.Subscript) and isinstance(x.value, ast.Name) \
+                    and x.value.id == table:
+                bkey(x, n)
+    for origin in keys:
+        found = []
+        for sval in sconsts + ['<any other state>']:
+            for kind, k, lits in run_one(origin, sval):
+                found.append((kind, k, lits, sval))
+        if not found:
+            rep.ok(rid, f, 'advance_tasks: a task of origin %r is in each '
+                   'bucket at most once, each bucket is advanced at most once, '
+                   'its own bucket is advanced' % origin, f.loc())
+            continue
+        kind, k, lits, sval = found[0]
+        what = {'twice-in-bucket': 'puts the task into the bucket %r twice: '
+                'advance() and the messages built from that bucket report the '
+                'task twice' % k,
+                'bucket-handed-on-twice': 'advances the bucket %r twice' % k,
+                'own-bucket-not-handed-on': 'never advances the bucket %r the '
+                'task was sorted into: the task is not handed on at all' % k,
+                }[kind]
+        rep.bad(rid, f, 'advance_tasks:%s' % kind,
+                'AgentExecutingComponent.advance_tasks %s (task with %s == %r%s'
+                ', state %s). The executors finish a task with ONE call of '
+                'advance_tasks; what that call does per addressee is what the '
+                'task\'s owner sees' % (
+                    what, ofield[0] if ofield else 'origin', origin,
+                    ''.join(' and `%s`' % x.replace('_T_', 'task')
+                            for x in lits), sval), f.loc(),
+                history='a task with %s=%r%s fails to launch in the Popen '
+                'executor (or runs in the NOOP executor): advance_tasks(task, '
+                'FAILED) %s' % (
+                    ofield[0] if ofield else 'origin', origin,
+                    ''.join(', ' + x.replace('_T_', 'task') for x in lits),
+                    'announces FAILED twice for it - the raptor master\'s '
+                    'result callback fires twice' if kind !=
+                    'own-bucket-not-handed-on' else 'announces nothing'))
+
+
+# ------------------------------------------------------------------------------
+# R07.13  an error of the kill does not escape once ownership was taken
+#
+# Popen.cancel_task removes the uid from the registry (the watcher will skip
+# the task from now on) and then asks the launcher to signal the process
+# group.  os.kill / os.killpg raise OSError: ESRCH when the group is gone
+# already (ProcessLookupError), but also EPERM (PermissionError: a setuid
+# launcher wrapper, a group that holds another user's process; on BSD / macOS
+# a group of zombies).  An OSError that leaves the launcher's cancel_task
+# leaves Popen.cancel_task between the removal and the finish: no unschedule
+# publication, no hand-on, and nobody else will ever touch the task.
+# Necessary: every signal sent after the removal lies in a `try` whose
+# handlers catch OSError as a whole (or more) and do not raise again - in the
+# launcher, or around the launcher call in Popen.cancel_task (where R07.7
+# decides what the handler does next).
+#
+_OSERROR_UP = {'OSError', 'EnvironmentError', 'IOError', 'WindowsError',
+               'Exception', 'BaseException', 'os.error', 'socket.error',
+               'select.error'}
+
+
+def _handler_types(f, h):
+    if h.type is None:
+        return [None]
+    elts = h.type.elts if isinstance(h.type, ast.Tuple) else [h.type]
+    out = []
+    for e in elts:
+        d = dotted(e)
+        if not d:
+            raise AnalysisError('UNRECOGNISED-IDIOM %s: handler type `%s`'
+                                % (f.where, short(e, 30)))
+        out.append(d)
+    return out
+
+
+def _catches_oserror(f, t):
+    """(handler of the try statement `t` that takes an arbitrary OSError,
+    whether it may raise again) or None.  Handlers are tried in order; a
+    narrower one in front (ProcessLookupError) does not take EPERM"""
+    for h in t.handlers:
+        types = _handler_types(f, h)
+        if any(x is None or x in _OSERROR_UP for x in types):
+            again = any(isinstance(n, ast.Raise)
+                        for s in h.body for n in walk(s))
+            return h, again
+    return None
+
+
+def _oserror_escapes(f, node):
+    """None if an OSError raised at cfg node `node` is caught inside f and
+    not raised again; otherwise a description of the narrowest handler it
+    passes"""
+    seen = []
+    for t in reversed(node.tries):
+        r = _catches_oserror(f, t)
+        if r is None:
+            seen += ['except %s' % ', '.join(_handler_types(f, h)[:3])
+                     for h in t.handlers if h.type is not None]
+            continue
+        h, again = r
+        if not again:
+            return None
+        seen.append('except %s: ... raise' % ', '.join(
+            str(x) for x in _handler_types(f, h)[:3]))
+    return seen or ['no handler']
+
+
+def r07_13(prog, rep, rid='R07.13'):
+    rep.rule(rid, 'after cancel_task has taken the task out of the registry, '
+             'an OSError of the launcher\'s kill (EPERM as well as ESRCH) '
+             'cannot leave cancel_task before the task is finished: every '
+             'os.kill / os.killpg of a launcher cancel_task(task, pid) is '
+             'inside a handler for OSError as a whole', minimum=2)
+    fc, gc, smap, lcalls, waits, impls = _launcher_cancel_sites(prog)
+    rep.saw(fc)
+    arbs = _arbitration(prog, fc, gc)
+    if not arbs:
+        raise AnalysisError('UNRECOGNISED-IDIOM %s: no locked test-and-remove '
+                            'on the task registry (see R07.2)' % fc.where)
+    cont = arbs[0][4]
+    lost = _lost_edges(gc, arbs)
+    owned = gc.reachable(sorted({a[5] for a in arbs}), skip_edges=lost)
+    after = [c for c in lcalls if smap[id(c)].id in owned]
+    guarded = all(_oserror_escapes(fc, smap[id(c)]) is None for c in after)
+    for f in impls:
+        rep.saw(f)
+        g = cfg_of(f)
+        label = '%s.%s' % (f.cls.name if f.cls else '', f.name)
+        bad = None
+        n_sends = 0
+        for n in g.nodes:
+            if n.ast is None or n.kind in ('while', 'dispatch', 'handler'):
+                continue
+            for c in I.stmt_calls(n):
+                if call_name(c) not in _SEND:
+                    continue
+                n_sends += 1
+                esc = _oserror_escapes(f, n)
+                if esc is not None and bad is None:
+                    bad = (c, esc)
+        if not n_sends:
+            raise AnalysisError('UNRECOGNISED-IDIOM %s: no os.kill / '
+                                'os.killpg' % f.where)
+        if not after or guarded or bad is None:
+            rep.ok(rid, f, '%s: %s' % (label, 'the launcher is called before '
+                   'the removal from %s: an error leaves the task to the '
+                   'watcher' % cont if not after else 'Popen.cancel_task '
+                   'catches OSError around the launcher call' if guarded and
+                   bad is not None else 'every kill (%d) is inside a handler '
+                   'that takes any OSError and does not raise again'
+                   % n_sends), f.loc())
+            continue
+        c, esc = bad
+        rep.bad(rid, f, 'kill-error-escapes',
+                '%s: an OSError of `%s` other than what `%s` takes leaves '
+                'this method (PermissionError / EPERM: the process group '
+                'holds a process of another user - setuid launcher wrapper - '
+                'or, on BSD / macOS, only zombies). Popen.cancel_task calls '
+                'it after it has removed the uid from %s under the lock and '
+                'does not catch the error: it is left between the removal '
+                'and the finish - no unschedule publication, no hand-on - '
+                'and the watcher skips the task ("not in %s: canceled '
+                'before")' % (label, short(c, 50), '; '.join(esc), cont,
+                              cont), f.loc(c),
+                history='cancel request or run-time limit for a running task '
+                'whose process group cannot be signalled: killpg raises '
+                'PermissionError(EPERM); the exception propagates out of '
+                'Popen.cancel_task into the control handler / timeout '
+                'thread; the task stays in AGENT_EXECUTING, its slots are '
+                'never released')
+
+
+# ------------------------------------------------------------------------------
 #
 def run(prog, rep, tier):
     rep.decided = ('on every path of cancel_task, of one watcher iteration + '
@@ -1789,7 +2611,13 @@ def run(prog, rep, tier):
         'cancel_task; the lists the timeout watcher and the NOOP collector '
         'drain are added to under one lock and read + reset in one critical '
         'section of it; every launcher cancel_task(task, pid) escalates to '
-        'SIGKILL before cancel_task waits for the process.')
+        'SIGKILL before cancel_task waits for the process; every finishing '
+        'hand-on to a state other than FAILED / CANCELED pushes, and '
+        'advance_tasks forwards state and push; every round of the watcher '
+        'loop polls the running tasks; advance_tasks, evaluated per origin '
+        'and state, puts a task into each bucket at most once and advances '
+        'each bucket at most once; an OSError of the launcher\'s kill cannot '
+        'leave cancel_task after the removal from the registry.')
     rep.undecided = ('real thread schedules (the argument is lock discipline '
         'plus single removal); Flux and Dragon executors are out of scope.')
     rep.assumptions = [
@@ -1797,6 +2625,10 @@ def run(prog, rep, tier):
         'task to the watcher',
         'BaseComponent.is_canceled hands on CANCELED exactly when it returns '
         'True',
+        'AgentComponent.advance forces publish=True, push=False for FAILED '
+        'and CANCELED (the client takes over); for every other state the '
+        'push flag decides whether the task reaches the next component',
+        'os.kill / os.killpg raise nothing but OSError (ESRCH, EPERM)',
     ]
     rep.attempt(r07_1, prog, rep)
     rep.attempt(r07_2, prog, rep)
@@ -1807,6 +2639,10 @@ def run(prog, rep, tier):
     rep.attempt(r07_7, prog, rep)
     rep.attempt(r07_8, prog, rep)
     rep.attempt(r07_9, prog, rep)
+    rep.attempt(r07_10, prog, rep)
+    rep.attempt(r07_11, prog, rep)
+    rep.attempt(r07_12, prog, rep)
+    rep.attempt(r07_13, prog, rep)
 
 
 # ------------------------------------------------------------------------------
@@ -1831,6 +2667,24 @@ _NRESET = "                self._tasks = to_continue\n"
 _NADD = "        with self._tasks_lock:\n            self._tasks.extend(to_collect)\n"
 _KILL2 = "            try:\n                time.sleep(0.1)\n                os.killpg(pid, signal.SIGKILL)\n            except OSError:\n                pass\n"
 _LMBODY = "        try:\n            self._log.debug('killing task %s (%d)', task['uid'], pid)\n            os.killpg(pid, signal.SIGTERM)\n\n            # also send a SIGKILL to drive the message home.\n            # NOTE: the `sleep` will limit the cancel throughput!\n            try:\n                time.sleep(0.1)\n                os.killpg(pid, signal.SIGKILL)\n            except OSError:\n                pass\n\n        except OSError:\n            # lost race: task is already gone, we ignore this\n            self._log.debug('task already gone: %s', task['uid'])\n"
+
+_CADV = "        self.advance([task], rps.AGENT_STAGING_OUTPUT_PENDING,\n                             publish=True, push=True)\n"
+_WADV = "            self.advance(tasks_to_advance, rps.AGENT_STAGING_OUTPUT_PENDING,\n                                           publish=True, push=True)\n"
+_NADV = "            self.advance_tasks(to_finish, rps.AGENT_STAGING_OUTPUT_PENDING,\n                                          publish=True, push=True)\n"
+_BCL = "            self.advance(buckets['client'], state=state,\n                                            publish=publish, push=push, ts=ts)\n"
+_BRA = "            self.advance(buckets['raptor'], state=state,\n                                            publish=publish, push=False, ts=ts)\n"
+_BAG = "            self.advance(buckets['agent'], state=state,\n                                            publish=publish, push=False, ts=ts)\n"
+_WPOLL = "                # check on the known tasks.\n                self._check_running(to_watch)\n"
+_WSLEEP = "                if not count:\n                    # no new tasks, no new state -- sleep a bit\n                    time.sleep(0.05)\n"
+_WTAIL = _WPOLL + "\n" + _WSLEEP
+_WCOUNT = "                MAX_QUEUE_BULKSIZE = 100\n                count = 0\n"
+_WEMPTY = "                except queue.Empty:\n                    pass\n"
+_WHEAD = "        try:\n            while not self._term.is_set():\n"
+_FIRST = "        for task in ru.as_list(tasks):\n            buckets[task['origin']].append(task)\n"
+_DEDUP = "                if task['description'].get('raptor_id'):\n                    if task not in buckets['raptor']:\n                        buckets['raptor'].append(task)\n"
+_SECOND = "        if state != rps.AGENT_EXECUTING:\n            for task in ru.as_list(tasks):\n" + _DEDUP
+_LMOUT = "        except OSError:\n            # lost race: task is already gone, we ignore this\n            self._log.debug('task already gone: %s', task['uid'])\n"
+_GONE = "            self._log.debug('task already gone: %s', task['uid'])\n"
 
 MUTATIONS = [
     dict(name='R07.1 cancel_task does not unschedule', rules=('R07.1',), edits=[
@@ -1952,6 +2806,50 @@ MUTATIONS = [
         (_L, _LMBODY, "        try:\n            self._log.debug('killing task %s (%d)', task['uid'], pid)\n            os.killpg(pid, signal.SIGTERM)\n\n        except OSError:\n            try:\n                time.sleep(0.1)\n                os.killpg(pid, signal.SIGKILL)\n            except OSError:\n                pass\n")]),
     dict(name='R07.5 timeout watcher finishes the task itself', rules=('R07.5',), edits=[
         (_E, "                        self.cancel_task(task=task)\n", "                        self.publish(rpc.AGENT_UNSCHEDULE_PUBSUB, task)\n                        self.advance(task, rps.CANCELED, publish=True, push=False)\n")]),
+    dict(name='R07.10 cancel_task: push=True dropped from the final advance (C07-h5)', rules=('R07.10',), edits=[
+        (_P, _CADV, "        self.advance([task], rps.AGENT_STAGING_OUTPUT_PENDING, publish=True)\n")]),
+    dict(name='R07.10 watcher announces the finished bulk with push=False', rules=('R07.10',), edits=[
+        (_P, _WADV, "            self.advance(tasks_to_advance, rps.AGENT_STAGING_OUTPUT_PENDING,\n                                           publish=True, push=False)\n")]),
+    dict(name='R07.10 NOOP collector: positional flags, the push one False', rules=('R07.10',), edits=[
+        (_N, _NADV, "            self.advance_tasks(to_finish, rps.AGENT_STAGING_OUTPUT_PENDING,\n                               True, False)\n")]),
+    dict(name='R07.10 advance_tasks: client bucket advanced without push=push', rules=('R07.10',), edits=[
+        (_E, _BCL, "            self.advance(buckets['client'], state=state,\n                                            publish=publish, ts=ts)\n")]),
+    dict(name='R07.10 advance_tasks: publish and push swapped positionally', rules=('R07.10',), edits=[
+        (_E, _BCL, "            self.advance(buckets['client'], state, push, publish, ts=ts)\n")]),
+    dict(name='R07.10 advance_tasks: agent bucket advanced without the state', rules=('R07.10',), edits=[
+        (_E, _BAG, "            self.advance(buckets['agent'], publish=publish, push=False, ts=ts)\n")]),
+    dict(name='R07.10 advance_tasks: raptor bucket always pushed', rules=('R07.10',), edits=[
+        (_E, _BRA, "            self.advance(buckets['raptor'], state=state,\n                                            publish=publish, push=True, ts=ts)\n")]),
+    dict(name='R07.11 nothing new -> sleep and continue before the poll (C07-h4)', rules=('R07.11',), edits=[
+        (_P, _WTAIL, "                if not count:\n                    # no new tasks, no new state -- sleep a bit\n                    time.sleep(0.05)\n                    continue\n\n" + _WPOLL)]),
+    dict(name='R07.11 running tasks polled only when a new task arrived (guard form)', rules=('R07.11',), edits=[
+        (_P, _WPOLL, "                if count:\n                    self._check_running(to_watch)\n")]),
+    dict(name='R07.11 watcher thread ends when nothing new arrived', rules=('R07.11',), edits=[
+        (_P, _WSLEEP, "                if not count:\n                    break\n")]),
+    dict(name='R07.11 watch list re-created in every round', rules=('R07.11',), edits=[
+        (_P, _WCOUNT, _WCOUNT + "                to_watch = list()\n")]),
+    dict(name='R07.11 empty queue: sleep and continue from the handler', rules=('R07.11',), edits=[
+        (_P, _WEMPTY, "                except queue.Empty:\n                    if not count:\n                        time.sleep(0.05)\n                        continue\n")]),
+    dict(name='R07.12 dedupe test looks into the client bucket (C07-h2)', rules=('R07.12',), edits=[
+        (_E, _DEDUP, "                if task['description'].get('raptor_id'):\n                    if task not in buckets['client']:\n                        buckets['raptor'].append(task)\n")]),
+    dict(name='R07.12 dedupe test removed', rules=('R07.12',), edits=[
+        (_E, _DEDUP, "                if task['description'].get('raptor_id'):\n                    buckets['raptor'].append(task)\n")]),
+    dict(name='R07.12 dedupe test with flipped polarity', rules=('R07.12',), edits=[
+        (_E, _DEDUP, "                if task['description'].get('raptor_id'):\n                    if task in buckets['raptor']:\n                        buckets['raptor'].append(task)\n")]),
+    dict(name='R07.12 agent branch copied from the client branch, bucket not adapted', rules=('R07.12',), edits=[
+        (_E, _BAG, "            self.advance(buckets['client'], state=state,\n                                            publish=publish, push=False, ts=ts)\n")]),
+    dict(name='R07.12 every task is also sorted into the client bucket', rules=('R07.12',), edits=[
+        (_E, _FIRST, _FIRST + "            buckets['client'].append(task)\n")]),
+    dict(name='R07.12 dedupe by origin, wrong origin', rules=('R07.12',), edits=[
+        (_E, _DEDUP, "                if task['description'].get('raptor_id'):\n                    if task['origin'] != 'client':\n                        buckets['raptor'].append(task)\n")]),
+    dict(name='R07.13 launcher: except OSError narrowed to ProcessLookupError (C07-h1)', rules=('R07.13',), edits=[
+        (_L, _LMOUT, _LMOUT.replace('except OSError:', 'except ProcessLookupError:'))]),
+    dict(name='R07.13 srun launcher: handler narrowed to ProcessLookupError', rules=('R07.13',), edits=[
+        (_S, _LMOUT, _LMOUT.replace('except OSError:', 'except ProcessLookupError:'))]),
+    dict(name='R07.13 launcher: tuple of narrow types', rules=('R07.13',), edits=[
+        (_L, _LMOUT, _LMOUT.replace('except OSError:', 'except (ProcessLookupError, ChildProcessError):'))]),
+    dict(name='R07.13 launcher: everything but ESRCH is raised again', rules=('R07.13',), edits=[
+        (_L, _LMOUT, "        except OSError as e:\n            if e.errno != 3:\n                raise\n" + _GONE)]),
 ]
 
 SILENT = [
@@ -2045,4 +2943,41 @@ SILENT = [
     dict(name='atomic pop with a sentinel default', edits=[
         (_P, "        with self._check_lock:\n            if tid not in self._tasks:\n                return\n            try:\n                del self._tasks[tid]\n            except KeyError:\n                pass\n", "        with self._check_lock:\n            if self._tasks.pop(tid, _pids) is _pids:\n                return\n"),
         (_P, "                with self._check_lock:\n                    if tid not in self._tasks:\n                        # task was canceled before, nothing to do\n                        continue\n                    try:\n                        del self._tasks[tid]\n                    except KeyError:\n                        pass\n", "                with self._check_lock:\n                    mine = self._tasks.pop(tid, _pids)\n                    if mine is _pids:\n                        continue\n")]),
+    dict(name='cancel_task hand-on with positional flags', edits=[
+        (_P, _CADV, "        self.advance([task], rps.AGENT_STAGING_OUTPUT_PENDING, True, True)\n")]),
+    dict(name='cancel_task: push flag and state in locals, keywords reordered', edits=[
+        (_P, _CADV, "        do_push = True\n        pending = rps.AGENT_STAGING_OUTPUT_PENDING\n        self.advance(things=[task], push=do_push, publish=True, state=pending)\n")]),
+    dict(name='watcher: early return for the empty bulk, keywords reordered', edits=[
+        (_P, "        if tasks_to_advance:\n" + _WADV, "        if not tasks_to_advance:\n            return\n\n        self.advance(tasks_to_advance, push=True, publish=True,\n                     state=rps.AGENT_STAGING_OUTPUT_PENDING)\n")]),
+    dict(name='advance_tasks forwards state / publish / push positionally', edits=[
+        (_E, _BCL, "            self.advance(buckets['client'], state, publish, push, ts=ts)\n"),
+        (_E, _BRA, "            self.advance(buckets['raptor'], state, publish, False, ts=ts)\n")]),
+    dict(name='watcher loop: sleep in front of the poll, no continue', edits=[
+        (_P, _WTAIL, _WSLEEP + "\n" + _WPOLL)]),
+    dict(name='watcher loop: early-continue form after the poll', edits=[
+        (_P, _WSLEEP, "                if count:\n                    continue\n\n                # no new tasks, no new state -- sleep a bit\n                time.sleep(0.05)\n")]),
+    dict(name='watcher loop: while True with a break on the termination flag', edits=[
+        (_P, _WHEAD, "        try:\n            while True:\n\n                if self._term.is_set():\n                    break\n")]),
+    dict(name='watcher loop: termination flag cached in a local', edits=[
+        (_P, _WHEAD, "        term = self._term\n        try:\n            while not term.is_set():\n")]),
+    dict(name='watcher loop: poll and sleep of one round in a helper method', edits=[
+        (_P, _WTAIL, "                self._poll(to_watch, count)\n"),
+        (_P, "    def _check_running(self, to_watch):\n", "    def _poll(self, to_watch, idle):\n        # check on the known tasks.\n        self._check_running(to_watch)\n        if not idle:\n            time.sleep(0.05)\n\n    def _check_running(self, to_watch):\n")]),
+    dict(name='advance_tasks: dedupe in early-continue form', edits=[
+        (_E, _DEDUP, "                if not task['description'].get('raptor_id'):\n                    continue\n                if task in buckets['raptor']:\n                    continue\n                buckets['raptor'].append(task)\n")]),
+    dict(name='advance_tasks: raptor bucket in a local, merged condition', edits=[
+        (_E, _SECOND, "        to_raptor = buckets['raptor']\n        if state != rps.AGENT_EXECUTING:\n            for task in ru.as_list(tasks):\n                if task['description'].get('raptor_id') and \\\n                        task not in to_raptor:\n                    to_raptor.append(task)\n")]),
+    dict(name='advance_tasks: dedupe decided by the origin instead of by membership', edits=[
+        (_E, _DEDUP, "                if task['description'].get('raptor_id'):\n                    if task['origin'] != 'raptor':\n                        buckets['raptor'].append(task)\n")]),
+    dict(name='advance_tasks: one loop over the bulk, bulk listed once', edits=[
+        (_E, _FIRST + "\n        # we want any task which has a `raptor_id` set to show up in raptor's\n        # result callbacks\n" + _SECOND, "        bulk = ru.as_list(tasks)\n        for t in bulk:\n            buckets[t['origin']].append(t)\n\n        for t in bulk:\n            if state == rps.AGENT_EXECUTING:\n                break\n            if t['description'].get('raptor_id') and \\\n                    t not in buckets['raptor']:\n                buckets['raptor'] += [t]\n")]),
+    dict(name='launcher: ESRCH and the other OSErrors in two handlers', edits=[
+        (_L, _LMOUT, "        except ProcessLookupError:\n            # lost race: task is already gone, we ignore this\n" + _GONE + "        except OSError as e:\n            self._log.debug('could not kill %s: %s', task['uid'], e)\n")]),
+    dict(name='launcher: except (ProcessLookupError, EnvironmentError)', edits=[
+        (_L, _LMOUT, _LMOUT.replace('except OSError:', 'except (ProcessLookupError, EnvironmentError):'))]),
+    dict(name='srun launcher: except Exception', edits=[
+        (_S, _LMOUT, _LMOUT.replace('except OSError:', 'except Exception:'))]),
+    dict(name='launcher lets EPERM through, Popen.cancel_task catches OSError around the kill', edits=[
+        (_L, _LMOUT, _LMOUT.replace('except OSError:', 'except ProcessLookupError:')),
+        (_P, _KILL, "        launcher = self._rm.get_launcher(task['launcher_name'])\n        try:\n            launcher.cancel_task(task, proc.pid)\n        except OSError as e:\n            self._log.warn('kill of %s failed: %s', tid, e)\n")]),
 ]
